@@ -10,7 +10,7 @@ EXTENDS GroupLine, Json, IOUtils, Usage
 
 LeavesOf(lvl)   == UNION {FieldLeaves(lvl.named[k]) : k \in DOMAIN lvl.named}
 PosItemsOf(lvl) == (IF lvl.tail.kind = "pos" THEN RangeOf(lvl.tail.items)
-                    ELSE IF lvl.tail.kind = "cmd" THEN RangeOf(lvl.tail.else_pos) ELSE {})
+                    ELSE IF lvl.tail.kind = "cmd" THEN RangeOf(lvl.tail.else_pos) \cup RangeOf(PrePos(lvl)) ELSE {})
                    \cup UNION {IF lvl.named[k].kind = "adj" THEN RangeOf(PosMembers(lvl.named[k])) ELSE {} : k \in DOMAIN lvl.named}
                    \* a positional item that is one branch of a choice
                    \cup UNION {IF lvl.named[k].kind = "alt"
